@@ -116,14 +116,22 @@ _KNOWN = None
 
 
 def known_findings():
+    """known_findings.json (the committed file) + known_findings.d/*.json (same format, merged)."""
     global _KNOWN
     if _KNOWN is None:
-        path = os.path.join(VERIF_DIR, "known_findings.json")
-        try:
-            with open(path) as f:
-                _KNOWN = json.load(f)
-        except FileNotFoundError:
-            _KNOWN = {"findings": [], "fixed": []}
+        import glob
+        merged = {"findings": [], "fixed": []}
+        paths = [os.path.join(VERIF_DIR, "known_findings.json")]
+        paths += sorted(glob.glob(os.path.join(VERIF_DIR, "known_findings.d", "*.json")))
+        for path in paths:
+            try:
+                with open(path) as f:
+                    d = json.load(f)
+            except FileNotFoundError:
+                continue
+            merged["findings"] += d.get("findings", [])
+            merged["fixed"] += d.get("fixed", [])
+        _KNOWN = merged
     return _KNOWN
 
 
